@@ -58,7 +58,7 @@ def strategy(tier):
 
 def matrix(tier):
     for r, o, m, s in itertools.product(SEED_DOCS, OPS, MUTS, ("result", "source")):
-        for sel in (range(6) if o == "copy" else (0,)):     # copy: one cell per record of the seed document
+        for sel in (range(6) if o in ("copy", "add_record") else (0,)):     # copy, add_record: one cell per record of the seed document
             yield {"recipe": r, "op": o, "mut": m, "side": s, "sel": sel}
 
 
